@@ -36,7 +36,7 @@ ALLOWED_AXIOMS = {
 
 
 # properties whose Props file imports Gen/GoFuncs.v (functions translated from the Go text by golite)
-GEN_USERS = {"C03", "C12", "C13", "C18"}
+GEN_USERS = {"C03", "C12", "C13", "C16", "C18"}
 
 
 class EnvError(Exception):
